@@ -1,5 +1,6 @@
 import Driver.C02Mon
 import OidcModel.Generated.RPVerifier
+import OidcModel.Generated.VerifiersC02
 open Kv Drv
 
 namespace Drv.C02
@@ -46,21 +47,110 @@ def runModel (l : Line) (now : Int) : Go.R Claims :=
     | .ok (.expired c _) => .ok c
     | .error e => .error e
   | "assertion" =>
-    let sc : Option (Claims → Go.R Unit) := if has l "v.subjcheck" then some (fun _ => .ok ()) else none
-    Gen.VerifyJWTAssertion now t { Issuer := str l "v.iss", MaxAgeIAT := int l "v.maxiat", Offset := int l "v.off", Storage := parseRegistry l, CheckSubject := sc }
+    -- the verifier as constructed, then the option the harness passed (the regenerated `op.SubjectCheck`)
+    let v0 : JWTProfileVerifier := { Issuer := str l "v.iss", MaxAgeIAT := int l "v.maxiat", Offset := int l "v.off", Storage := parseRegistry l }
+    let v := if has l "v.subjcheck" then GenC02.SubjectCheck now (some (fun _ => .ok ())) v0 else v0
+    Gen.VerifyJWTAssertion now t v
   | _ => .error "bad-verifier"
 
-def step (l : Line) : String :=
+/-- the model's verifier objects of the running reuse history (part 6): what the previous calls left behind in them -/
+structure FullSt where
+  jv : Option JWTProfileVerifier := none
+  v : Option Verifier := none
+instance : Inhabited FullSt := ⟨{}⟩
+
+/-- one call on the history's verifier OBJECT: the regenerated state-returning twins (`GenC02.*St`), started from what the
+    previous step left (step 0: the object as constructed); what lives outside the object (the storage's published keys, the
+    client-key registry) is this step's -/
+def runReuse (st : FullSt) (l : Line) (now : Int) : Go.R Claims × FullSt :=
+  let t := parseTokenX l
+  let first := nat l "g.step" == 0
+  match str l "verifier" with
+  | "assertion" =>
+    let fresh : JWTProfileVerifier :=
+      { Issuer := str l "v.iss", MaxAgeIAT := int l "v.maxiat", Offset := int l "v.off", Storage := parseRegistry l,
+        keySet := if str l "v.ks" == "explicit" then parseKeySet l "ks." else { kind := .nilSet } }
+    let v0 := match st.jv with
+      | some v => if first then fresh else { v with Storage := parseRegistry l }
+      | none => fresh
+    let r := GenC02.VerifyJWTAssertionSt now t v0
+    (r.1, { st with jv := some r.2 })
+  | "at" =>
+    let v0 := match st.v with
+      | some v => if first then parseVerifier l else { v with KeySet := parseKeySet l "ks." }
+      | none => parseVerifier l
+    let r := GenC02.OPVerifyAccessTokenSt now t v0
+    (r.1, { st with v := some r.2 })
+  | "hint" =>
+    let v0 := match st.v with
+      | some v => if first then parseVerifier l else { v with KeySet := parseKeySet l "ks." }
+      | none => parseVerifier l
+    let r := GenC02.VerifyIDTokenHintSt now t v0
+    (match r.1 with
+      | .ok (.valid c) => .ok c
+      | .ok (.expired c _) => .ok c
+      | .error e => .error e, { st with v := some r.2 })
+  | _ => (.error "bad-verifier", st)
+
+/-- part 5: does the endpoint's reader believe the token?  The provider is configured as the harness configured it (the
+    regenerated provider options and functional options), the verifier is the one the regenerated getters / `revocationKeySet.verifier`
+    derive, the reader is the regenerated one of that endpoint -/
+def endpointModel (l : Line) (now : Int) : Bool :=
+  let t := parseTokenX l
+  let ks := parseKeySet l "ks."
+  let algs := list l "v.algs"
+  let iss := str l "v.iss"
+  let p0 : C02Provider := { accessTokenKeySet := ks, idTokenHinKeySet := ks, tokenOf := fun _ => t, jtiOf := fun _ => str l "t.jti" }
+  let p : C02Provider :=
+    if has l "v.cfg" then
+      match GenC02.WithAccessTokenVerifierOpts now [GenC02.WithSupportedAccessTokenSigningAlgorithms now algs] p0 with
+      | .ok p1 =>
+        match GenC02.WithIDTokenHintVerifierOpts now [GenC02.WithSupportedIDTokenHintSigningAlgorithms now algs] p1 with
+        | .ok p2 => p2
+        | .error _ => p1
+      | .error _ => p0
+    else p0
+  let hint := Gen.VerifyIDTokenHint now t (GenC02.ProviderIDTokenHintVerifier now iss p)
+  if str l "verifier" == "assertion" then
+    -- client authentication by assertion / the jwt-bearer grant: the verifier `Provider.JWTProfileVerifier` builds (C14 regenerates
+    -- the getter: issuer of the request, one hour, one second, no explicit key set) over the client-key registry
+    (Gen.VerifyJWTAssertion now t { Issuer := iss, MaxAgeIAT := int l "v.maxiat", Offset := int l "v.off", Storage := parseRegistry l }).toBool
+  else
+  match str l "ep" with
+  | "revocation" =>
+    match GenC02.getTokenIDAndSubjectForRevocation now iss p "jwt" with
+    | .ok (_, _, ok) => ok
+    | .error _ => false
+  | "introspection" => (GenC02.getTokenIDAndSubject now iss p "jwt").2.2
+  | "userinfo" => (GenC02.getTokenIDAndSubject now iss p "jwt").2.2
+  | "exchange-subject-at" => (GenC02.getTokenIDAndClaims now iss p "jwt").2.2.2
+  | "exchange-actor-at" => (GenC02.getTokenIDAndClaims now iss p "jwt").2.2.2
+  | "exchange-subject-idt" => (match hint with | .ok (.valid _) => true | _ => false)   -- an expired hint is an error for this caller
+  | _ => (match hint with | .ok _ => true | .error _ => false)                           -- end_session, authorize: expired hints still count
+
+def stepEndpoint (l : Line) : String :=
+  let m0 := endpointModel l (int l "now0")
+  let m1 := endpointModel l (int l "now1")
+  let stable := m0 == m1
+  let show_ (b : Bool) := if b then "ok" else "err:not-believed"
+  let obsS := if str l "obs" == "ok" then "ok" else if str l "obs" == "panic" then "panic" else "err:" ++ str l "o.err"
+  let agree := !stable || (obsS == show_ m0)
+  s!"case={str l "case"} class=ep-{str l "ep"}-{str l "router"} model={if stable then show_ m0 else "unstable"} observed={obsS} monitor={showMon (monitorLine l)} agree={if agree then 1 else 0}"
+
+def stepSt (st : FullSt) (l : Line) : FullSt × String :=
+  if has l "ep" then (st, stepEndpoint l) else
   if str l "verifier" == "fmk" then
     let ks := parseKeySet l "ks."
     let m := Hand.FindMatchingKey (str l "kid") "sig" (str l "alg") ks.keys
     let agree := match m with
       | .ok k => str l "obs" == "ok" && ks.keys[nat l "o.idx"]? == some k
       | .error e => obsString l == "err:" ++ e
-    s!"case={str l "case"} model={showR m} observed={obsString l} monitor={showMon (monitorLine l)} agree={if agree then 1 else 0}"
+    (st, s!"case={str l "case"} model={showR m} observed={obsString l} monitor={showMon (monitorLine l)} agree={if agree then 1 else 0}")
   else
-  let m0 := runModel l (int l "now0")
-  let m1 := runModel l (int l "now1")
+  let reuse := has l "reuse"
+  let r0 := if reuse then runReuse st l (int l "now0") else (runModel l (int l "now0"), st)
+  let m0 := r0.1
+  let m1 := if reuse then (runReuse st l (int l "now1")).1 else runModel l (int l "now1")
   let stable := showR m0 == showR m1
   let modelS := if stable then showR m0 else "unstable"
   let obsS := obsString l
@@ -77,6 +167,9 @@ def step (l : Line) : String :=
   let agree := merged && fetchesOK && (!stable || (match m0 with
     | .ok _ => obsS == "ok"
     | .error e => obsS != "ok" && obsS != "panic" && (!e.startsWith "Err" || obsS == "err:" ++ e)))
-  s!"case={str l "case"} model={modelS} observed={obsS} monitor={showMon (monitorLine l)} agree={if agree then 1 else 0}"
+  (r0.2, s!"case={str l "case"} model={modelS} observed={obsS} monitor={showMon (monitorLine l)} agree={if agree then 1 else 0}")
+
+/-- stateless entry point (lines that belong to no reuse history) -/
+def step (l : Line) : String := (stepSt {} l).2
 
 end Drv.C02
